@@ -18,9 +18,9 @@ import (
 
 func init() {
 	register(&Rule{ID: "R-LEXPROGRESS", Floor: 8, Run: ruleLexProgress,
-		Text: "Tokenisation terminates: the function that advances the read position does so unconditionally; every loop of the lexer calls it (directly or through a lexer function that does) on every cycle, and has an exit that is taken when the current character is the end-of-input sentinel; the lexer does not recurse."})
+		Text: "Tokenisation terminates: the function that advances the read position does so unconditionally; every loop of the lexer calls it (directly or through a lexer function that does) on every cycle, and has an exit that is taken at the end of the input — when the current character is the end-of-input sentinel, or when the position is compared with the length of the input (directly or through a helper that returns that comparison); the lexer does not recurse."})
 	register(&Rule{ID: "R-EOFSENTINEL", Floor: 1, Run: ruleEOFSentinel,
-		Text: "The end-of-input token is produced only under a comparison of the read position with the length of the input, not merely because the current character has the sentinel's value (a NUL byte inside the script is not the end of the script)."})
+		Text: "The end-of-input token is produced only under a comparison of the read position with the length of the input, not merely because the current character has the sentinel's value (a NUL byte inside the script is not the end of the script).  The same holds for every other test of the current character against the sentinel in the lexer — in the readers of strings, regexps and comments: the zero character may only lead to a comparison of the position."})
 	register(&Rule{ID: "R-ESCAPES", Floor: 3, Run: ruleEscapes,
 		Text: "The string reader's escape table is exactly the language's: \\n, \\r and \\t denote newline, carriage return and tab; every other escaped character (including \\\" and \\\\) denotes itself."})
 }
